@@ -468,6 +468,152 @@ def check_after_e2e(acc: Acc, cases):
             shutil.rmtree(root, ignore_errors=True)
 
 
+# ---------------------------------------------------------------------------------------------
+# -k / -m at project level: which tasks stay selected
+# ---------------------------------------------------------------------------------------------
+
+def check_select_projects(acc: Acc, cases, drv):
+    """API level: the real `select_tasks_by_marks_and_expressions(session, dag)` on fresh task objects (graph without edges);
+    a task is deselected iff a `skip` mark with a "Deselected …" reason was attached to it."""
+    from _pytask import mark as M
+
+    lines, meta = [], []
+    for case in cases:
+        specs = case["tasks"]
+        for kexpr, mexpr in case["queries"]:
+            acc.n += 1
+            tasks, dag = mk_tasks(specs)
+            before = [len(t.markers) for t in tasks]
+            session = types.SimpleNamespace(tasks=tasks, config={"expression": kexpr, "marker_expression": mexpr})
+            try:
+                M.select_tasks_by_marks_and_expressions(session, dag)
+            except ValueError:
+                real = "parse-error"
+            except BaseException as ex:  # noqa: BLE001
+                real = f"other:{type(ex).__name__}"
+            else:
+                real = []
+                for i, t in enumerate(tasks):
+                    new = t.markers[before[i]:]
+                    desel = any(m.name == "skip" and str(m.kwargs.get("reason", "")).startswith("Deselected") for m in new)
+                    if not desel:
+                        real.append(i)
+            want = orc.project_selection(kexpr, mexpr, specs)
+            cls = "error" if isinstance(want, str) else "none" if not want else "all" if len(want) == len(specs) else "one" if len(want) == 1 else "some"
+            acc.bump(f"project-selection={cls}" + ("+k" if kexpr else "") + ("+m" if mexpr else ""))
+            if isinstance(want, list) and (kexpr or mexpr):
+                acc.hashes += h8(json.dumps([specs, kexpr, mexpr], sort_keys=True))
+                if cls == "none" and len(acc.samples) < 2:
+                    acc.samples.append({"tasks": [sp["name"] for sp in specs], "-k": kexpr, "-m": mexpr, "selected": real})
+            if real != want:
+                acc.nviol += 1
+                if len(acc.violations) < KEEP:
+                    acc.violations.append({"what": f"project-selection: -k {kexpr!r} -m {mexpr!r} on tasks {[[sp['name'], sp['markers']] for sp in specs]}: pytask keeps "
+                                                   f"{real} selected, the formulas keep {want}",
+                                           "replay": {"layer": "select-project", "case": {"tasks": specs, "queries": [[kexpr, mexpr]]}}})
+            if drv is not None:
+                names = set(orc.identifiers(kexpr))
+                for sp in specs:
+                    names.update([sp["name"], *sp["attrs"], *sp["markers"]])
+                lower = ",".join(f"{cps(x, '.')}:{cps(x.lower(), '.')}" for x in sorted(names) if x.lower() != x)
+                tl = "|".join(f"{cps(sp['name'], '.')}/{';'.join(cps(a, '.') for a in sp['attrs'])}/{';'.join(cps(m, '.') for m in sp['markers'])}" for sp in specs)
+                lines.append(f"expr.project k={cps(kexpr)} m={cps(mexpr)} words={','.join(map(str, word_cps(kexpr + mexpr)))} tasks={tl} lower={lower}")
+                meta.append((kexpr, mexpr, specs, real))
+    if drv is not None and lines:
+        for (kexpr, mexpr, specs, real), a in zip(meta, drv.batch(lines)):
+            acc.validated += 1
+            shown = real if isinstance(real, str) else "sel:" + ",".join(map(str, real))
+            a_cmp = "parse-error" if a.startswith("parse-error:") else a
+            if a_cmp != shown:
+                acc.ndis += 1
+                if len(acc.disagreements) < KEEP:
+                    acc.disagreements.append({"what": f"project selection -k {kexpr!r} -m {mexpr!r} on {specs}: implementation {shown}, model {a}",
+                                              "replay": {"layer": "select-project", "case": {"tasks": specs, "queries": [[kexpr, mexpr]]}}})
+
+
+SELECT_E2E_CHILD = r'''
+import json, sys
+from pathlib import Path
+import pytask
+root = Path(sys.argv[1])
+kw = json.loads(sys.argv[2])
+s = pytask.build(paths=[root], capture="no", **kw)
+log = root / "log.txt"
+print("RESULT " + json.dumps({"exit": int(s.exit_code), "tasks": [[getattr(t, "base_name", t.name), t.name, sorted(t.function.__dict__)] for t in s.tasks],
+                              "order": log.read_text().split() if log.exists() else []}))
+'''
+
+
+def check_select_e2e(acc: Acc, cases):
+    """End to end: generated modules (independent tasks, optional markers), real `pytask.build(expression=…, marker_expression=…)`
+    in a fresh process; the executed tasks must be exactly those for which every given expression is true."""
+    import shutil
+    import tempfile
+
+    for case in cases:
+        root = Path(tempfile.mkdtemp(prefix="pv-c16s-"))
+        try:
+            lines = ["from pathlib import Path", "import pytask", "from pytask import task", "HERE = Path(__file__).parent", ""]
+            for sp in case["tasks"]:
+                for m in sp["markers"]:
+                    lines.append(f"@pytask.mark.{m}")
+                lines.append(f"@task(produces=HERE / {sp['func'] + '.txt'!r})")
+                lines.append(f"def {sp['func']}():")
+                lines.append(f"    with (HERE / 'log.txt').open('a') as f:\n        f.write({sp['func']!r} + '\\n')")
+                lines.append(f"    return {sp['func']!r}")
+                lines.append("")
+            (root / f"task_{case['mod']}.py").write_text("\n".join(lines))
+            (root / "pyproject.toml").write_text("[tool.pytask.ini_options]\nmarkers = {" + ", ".join(f'{m} = "m"' for m in case["all_markers"]) + "}\n")
+            for kexpr, mexpr in case["queries"]:
+                acc.n += 1
+                for f in root.glob("*.txt"):
+                    f.unlink()
+                shutil.rmtree(root / ".pytask", ignore_errors=True)
+                kw = {}
+                if kexpr:
+                    kw["expression"] = kexpr
+                if mexpr:
+                    kw["marker_expression"] = mexpr
+                env = dict(os.environ, PYTHONHASHSEED=str(case["hashseed"]), PYTHONDONTWRITEBYTECODE="1")
+                p = subprocess.run([sys.executable, "-c", SELECT_E2E_CHILD, str(root), json.dumps(kw)], capture_output=True, text=True, env=env,
+                                   cwd=str(root), timeout=300)
+                res = [l for l in p.stdout.splitlines() if l.startswith("RESULT ")]
+                if not res:
+                    acc.selfcheck.append(f"select-e2e child failed: {p.stderr[-400:]}")
+                    continue
+                r = json.loads(res[-1][7:])
+                by_func = {b: (n, attrs) for b, n, attrs in r["tasks"]}
+                funcs = [sp["func"] for sp in case["tasks"]]
+                want = None
+                if set(by_func) == set(funcs):
+                    specs = [{"name": by_func[f][0], "attrs": by_func[f][1], "markers": sp["markers"]} for f, sp in zip(funcs, case["tasks"])]
+                    want = orc.project_selection(kexpr, mexpr, specs)
+                elif r["exit"] == 0 or r["tasks"]:
+                    acc.selfcheck.append(f"select-e2e: collected {sorted(by_func)}, generated {funcs}")
+                    continue
+                else:
+                    # nothing was collected because the build failed before: only legitimate for a malformed expression
+                    want = orc.project_selection(kexpr, mexpr, [{"name": f, "attrs": [], "markers": sp["markers"]} for f, sp in zip(funcs, case["tasks"])])
+                    if want != "parse-error":
+                        acc.selfcheck.append(f"select-e2e: nothing collected for -k {kexpr!r} -m {mexpr!r}: {p.stdout[-300:]}")
+                        continue
+                acc.bump("select-e2e=" + ("error" if isinstance(want, str) else "none" if not want else "all" if len(want) == len(funcs) else "some"))
+                if isinstance(want, str):
+                    bad = None if (r["exit"] != 0 and not r["order"]) else f"exit code {r['exit']}, executed {r['order']} although an expression is malformed"
+                else:
+                    ran = sorted(r["order"])
+                    exp = sorted(funcs[i] for i in want)
+                    bad = None if (ran == exp and r["exit"] == 0) else f"exit code {r['exit']}, executed {ran}, the formulas select {exp}"
+                    acc.hashes += h8(json.dumps([case["tasks"], kexpr, mexpr], sort_keys=True))
+                if bad:
+                    acc.nviol += 1
+                    if len(acc.violations) < KEEP:
+                        acc.violations.append({"what": f"select-e2e: project {[(sp['func'], sp['markers']) for sp in case['tasks']]} built with -k {kexpr!r} -m {mexpr!r}: {bad}",
+                                               "replay": {"layer": "select-e2e", "case": dict(case, queries=[[kexpr, mexpr]])}})
+        finally:
+            shutil.rmtree(root, ignore_errors=True)
+
+
 def main():
     job = json.load(sys.stdin)
     acc = Acc()
@@ -480,6 +626,10 @@ def main():
             check_strings(acc, job["strings"], drv)
         elif job["kind"] == "tasks":
             check_tasks(acc, job["cases"], drv)
+        elif job["kind"] == "select_project":
+            check_select_projects(acc, job["cases"], drv)
+        elif job["kind"] == "select_e2e":
+            check_select_e2e(acc, job["cases"])
         elif job["kind"] == "after":
             check_after_projects(acc, job["cases"])
         elif job["kind"] == "after_e2e":
